@@ -329,18 +329,19 @@ def pf_scaled(D, T=3, base='storage', fixed=False, win=None, unit='h', freq='h')
     return Shape(pf, tg, prices_for(D, pr, T))
 
 
-def pf_structured(D, T=3, inner_win=None, outer_win=None, two_internal=False):
+def pf_structured(D, T=3, inner_win=None, outer_win=None, two_internal=False, inner_win_all=False):
     """StructuredAsset wrapping {storage on internal node I, transport I->E (, transport I->J, market J)}; outside: market on E"""
     eao = lift.import_eao()
     tg = grid(T)
     nI, nE, nJ = nodes('I', 'E', 'J')
     st = mk_storage(D, 'ist', nI, eff=0.75, win=inner_win, tg=tg)
-    tr = mk_transport(D, 'itr', nI, nE, eff=0.5)
+    w2 = inner_win if inner_win_all else None
+    tr = mk_transport(D, 'itr', nI, nE, eff=0.5, win=w2, tg=tg)
     inner = [st, tr]
     pr = ['p']
     if two_internal:
-        inner.append(mk_transport(D, 'itr2', nJ, nI, eff=None, costs=False))
-        inner.append(mk_market(D, 'imk', nJ, T, 'q'))
+        inner.append(mk_transport(D, 'itr2', nJ, nI, eff=None, costs=False, win=w2, tg=tg))
+        inner.append(mk_market(D, 'imk', nJ, T, 'q', win=w2, tg=tg))
         pr.append('q')
     ipf = eao.portfolio.Portfolio(inner)
     s, e = window(tg, outer_win) if outer_win is not None else (None, None)
